@@ -166,7 +166,8 @@ def run_translators(build):
     sys.path.insert(0, os.path.join(ROOT, "translators"))
     msgs, inputs, ok = [], [], True
     tdir = os.path.join(ROOT, "translators")
-    for f in sorted(os.listdir(tdir)):
+    os.makedirs(os.path.join(COQ, "theories", "Gen"), exist_ok=True)
+    for f in (sorted(os.listdir(tdir)) if os.path.isdir(tdir) else []):
         if not f.endswith(".py") or f.startswith("_"):
             continue
         r = sh([PY, os.path.join(tdir, f), build, os.path.join(COQ, "theories", "Gen")],
